@@ -75,5 +75,8 @@ _normalize_eq_terms(terms, scalar_types) := [terms[1], terms[2]] if {
 
 _normalize_eq_terms(terms, scalar_types) := [terms[2], terms[1]] if {
 	terms[1].type in scalar_types
+
+	# two scalars (`1 == 2`) are handled by the first definition: both at once would be a conflict
+	not terms[2].type in scalar_types
 	not ast.is_wildcard(terms[2])
 }
